@@ -141,7 +141,7 @@ STREAM_FILES = {
 def plan(tier):
     items = []
     # synthetic layouts (irregular durations, non-zero first decode time, no tfdt): tiny loops, full K
-    for stream in ('synirr', 'synoff', 'synnot', 'synwild'):
+    for stream in ('synirr', 'synoff', 'synnot', 'synwild', 'synnum'):
         for tmpl in ('hand_made', 'manifest_e', 'manifest_n', 'manifest_a'):
             for opts in ({'start': 'explicit', 'depth': '30'}, {'start': 'explicit', 'depth': '8', 'leeway': '0'},
                          {'start': 'explicit', 'depth': '30', 'timeline': '1'},
